@@ -76,3 +76,55 @@ def p_catlabels(ctx):
             if st == REFUTED:
                 ctx.violation(name, {"function": "core.read_col", "model": e[1], "solver_output": str(e[1])[:600], "snippet": None}, False,
                               what=(e[4] or "")[:200])
+
+
+# ---- which schema element a column is decoded with (C15 / C01; C03 gets it through p_pages) --------------------------------------------
+_SE = re.compile(r"schema_element_is_the_one_at_the_chunks_path|schema_query_is_about_this_column|callsite\.page_cursor_header_metadata|out_of_reach")
+
+
+def _report(ctx, res, keep, why=""):
+    for name in res.order:
+        if not keep(name):
+            continue
+        st = res.status(name)
+        e = next((x for x in res.d[name] if x[0] == st), res.d[name][0])
+        fn = function_of(name)
+        ctx.obligation(name, fn, st, e[3], sum(x[2] for x in res.d[name]), detail=f"{e[4] or ''}{why} [{len(res.d[name])} path(s)]",
+                       model=e[1] if st == REFUTED else None, sample=True)
+        if st == REFUTED:
+            ctx.violation(name, {"function": fn, "model": e[1], "solver_output": str(e[1])[:600], "snippet": None}, False,
+                          what=((e[4] or "") + why)[:260])
+
+
+def p_schema_element(ctx):
+    """the element used for width / converted type / encoding decisions is the element AT path_in_schema (nested columns share leaf
+    names: LIST `element`, MAP `key` / `value`).  All PROVED on the unchanged tree.
+    Wiring: optional_parts(("_pages", "p_schema_element")) in props/C15.py and props/C01.py."""
+    ctx.assumptions += [a for a in c03_pages.ASSUMED if a not in ctx.assumptions]
+    for res in c03_pages.check(ctx, 10000 if ctx.tier == "quick" else 60000, parts=("dictionary_page", "data_page_v1", "read_col_values")):
+        _report(ctx, res, lambda n: _SE.search(n) is not None)
+
+
+# ---- memory-safety PRECONDITIONS of the native decoders established by core.py (C12) ---------------------------------------------------
+_NATIVE = re.compile(
+    r"^(read_data_page_v2\.(values\.(start_at_sum_of_level_lengths|length_is_compressed_size_minus_levels|count_is_num_values_minus_num_nulls|"
+    r"uncompressed_size_is_page_size_minus_levels|decompressed_iff_is_compressed_with_chunk_codec|plain\.decodes_value_section_as_physical_type|"
+    r"rle_boolean\.length_prefix_skipped|delta\.starts_at_value_section)|levels\.def_(read_from_uncompressed_prefix|width_is_width_from_max_level|"
+    r"output_holds_num_values_entries|decoded_iff_page_has_nulls))|"
+    r"read_data_page\.(page_bytes\.|values\.(start_after_levels|count_is_num_values_minus_num_nulls|returned_length_is_num_values_minus_num_nulls|"
+    r"plain\.|dictionary\.|rle_boolean\.|delta\.)|levels\.(width_is_width_from_max_level|count_is_num_values|blocks_decoded_are_the_blocks_present)|"
+    r"rep_levels\.|def_levels\.)|"
+    r"read_dictionary_page\.(page_bytes\.|count_is_header_num_values|decodes_whole_page_as_plain)|.*out_of_reach)")
+_WHY_C12 = (" | C12: this is a memory-safety PRECONDITION of a native decoder - unpack_byte_array / read_plain / the hybrid and delta decoders "
+            "trust the start, byte length and value count they are handed (known finding C12-P-unpack-byte-array-declared-length-unchecked: "
+            "a declared string length is not checked against the buffer), so a misplaced start or a wrong count is an out-of-bounds read")
+
+
+def p_pages_native_preconditions(ctx):
+    """where the value section starts, how many bytes / values go to unpack_byte_array / read_plain / the hybrid / delta decoders, which
+    level bytes are decoded with which width and capacity - for v1 pages, v2 pages and dictionary pages.  Only the obligations that are
+    PROVED on the unchanged tree are selected (the ones refuted inside open C03-P-* findings stay reported under C03).
+    Wiring: optional_parts(("_pages", "p_pages_native_preconditions")) in props/C12.py."""
+    ctx.assumptions += [a for a in c03_pages.ASSUMED if a not in ctx.assumptions]
+    for res in c03_pages.check(ctx, 10000 if ctx.tier == "quick" else 60000, parts=("dictionary_page", "data_page_v1", "data_page_v2")):
+        _report(ctx, res, lambda n: _NATIVE.search(n) is not None, _WHY_C12)
